@@ -96,6 +96,17 @@ pub fn run(tier: Tier) -> i32 {
             }
         }));
     }
+    // no number word is special as a neighbour: every number-related English word (units, teens, tens, scale words,
+    // ordinals and their plurals, aliases, the interpreter's own literals) around an 'o', all sequences <= 4
+    let every: Vec<String> = crate::vocab::number_words(crate::langs::L::En).into_iter().filter(|w| w != "o" && !w.contains(' ')).collect();
+    for w in &every {
+        let a: Vec<String> = vec!["o".to_string(), w.clone(), "xyzzy".to_string(), ",".to_string()];
+        acc_new.merge(explore::all_sequences2(&a, 4, |syms, acc| {
+            if syms.iter().any(|s| *s == "o") && syms.iter().any(|s| s == w) {
+                one_text(&ctx, acc, &lang, &syms.join(" "));
+            }
+        }));
+    }
     let mut acc = explore::all_sequences2(&alphabet, k, |syms, acc| {
         if !syms.iter().any(|s| s.eq_ignore_ascii_case("o")) {
             return;
@@ -135,7 +146,7 @@ pub fn run(tier: Tier) -> i32 {
     let cov = json!({
         "exhaustive": true,
         "rule": "every English token sequence of length <= k over the alphabet that contains an 'o', in four renderings (spaces everywhere, no-break spaces everywhere, punctuation glued to the previous word, no spaces around punctuation), at every threshold; compared with the same text where each 'o' is replaced by 'zero' or by an ordinary word according to the statement's neighbour rule; non-trivial = texts with at least one 'o' token",
-        "bounds": {"alphabet": alphabet, "depth": k, "inflected_neighbours_alphabet": inflected, "inflected_depth": 4},
+        "bounds": {"alphabet": alphabet, "depth": k, "inflected_neighbours_alphabet": inflected, "inflected_depth": 4, "every_number_word_stage": {"words": every.len(), "alphabet": "o, the word, xyzzy, comma", "depth": 4}},
         "thresholds": T.iter().map(|t| thr_name(*t)).collect::<Vec<_>>(),
     });
     acc.merge(acc_infl);
